@@ -82,7 +82,12 @@ Families == [
   selfrep |-> [v |-> {Ida, Idb, Semi}, m |-> << Mac(0, <<L("id","a")>>, <<Ida>>) >>],
   grow |-> [v |-> {Ida, Idb, Semi}, m |-> << Mac(0, <<L("id","a")>>, <<Ida, Semi, Ida>>) >>],
   mutual |-> [v |-> {Ida, Idb, Idx}, m |-> << Mac(3, <<L("id","a")>>, <<Idb>>), Mac(7, <<L("id","b")>>, <<Ida, Idx>>) >>],
-  finite |-> [v |-> {Ida, Idb, Idx}, m |-> << Mac(0, <<L("id","a")>>, <<Idb, Idb>>), Mac(0, <<L("id","b")>>, <<Idx>>) >>]
+  finite |-> [v |-> {Ida, Idb, Idx}, m |-> << Mac(0, <<L("id","a")>>, <<Idb, Idb>>), Mac(0, <<L("id","b")>>, <<Idx>>) >>],
+  \* a macro with an empty body in a higher priority class, fed by a lower-priority self-reproducing one: one rewriting step per pass all the same
+  erase |-> [v |-> {Ida, Idb, Idx}, m |-> << Mac(5, <<L("id","b")>>, <<>>), Mac(1, <<L("id","a")>>, <<Ida, Idb>>) >>],
+  \* eleven slots: insertion indices with two digits
+  manyslots |-> [v |-> {Ida, Idx},
+                 m |-> << Mac(0, <<L("id","x")>> \o [i \in 1..11 |-> S("ID")], <<Idb, Ins(10), Ins(1), Ins(0), Ins(9), Ins(10)>>) >>]
 ]
 Vocab == Families[Family].v
 Macros == Families[Family].m
